@@ -120,11 +120,16 @@ def gen_case(rng, force=None):
         for k in range(rng.choice([1, 1, 2])):
             models.append([GROUPS[gi], f"w{k}"])
     # which buckets are initialised (in every step, by a fixed owner model), with which dtype
-    photon3d = rng.random() < 0.25
+    photon3d = bool(force.get("photon3d")) or rng.random() < 0.25
     wl = [500.0, 600.0, 750.0][: rng.choice([2, 3])]
+    # the wavelength grid of a multi-wavelength photon bucket may change from readout to readout (same number of bins)
+    wl_shift = bool(force.get("wl_shift")) or rng.random() < 0.4
+    grids = [[w + d for w in wl] for d in (0.0, 25.0, 100.0, -50.0, 250.0)]
     owners = {}
     for b in ("photon", "signal", "image", "charge", "pixel"):
         p = {"photon": 0.7, "signal": 0.6, "image": 0.75, "charge": 0.5, "pixel": 0.3}[b]
+        if force.get("photon3d") and b == "photon":
+            p = 1.0
         if (force.get("image") and b == "image") or (force.get("clusters") and b == "charge"):
             p = 1.0
         if force.get("clusters") and b == "pixel":
@@ -158,7 +163,8 @@ def gen_case(rng, force=None):
             if b == "charge":
                 charge_vals = list(vals)
             if b == "photon" and photon3d:
-                step_ops[o["model"]].append(["set3d", o["dtype"], wl, vals])
+                wl_i = (grids[i % len(grids)] if rng.random() < 0.7 else rng.choice(grids)) if wl_shift else wl
+                step_ops[o["model"]].append(["set3d", o["dtype"], wl_i, vals])
             else:
                 step_ops[o["model"]].append(["set", b, o["dtype"], vals])
         # later modifications by models after the owner: in-place add, rewrite of the same content
@@ -184,8 +190,15 @@ def gen_case(rng, force=None):
                             charge_vals = sim_charge(charge_vals, step_ops[mi][-1], rows, cols)
                     elif r < 0.3 and b != "charge":
                         step_ops[mi].append(["same", b])
+                    elif r < (0.55 if force.get("zeroing") else 0.4):
+                        # the bucket held non-zero content: this model sets every entry to exactly 0 (charge: empties it)
+                        step_ops[mi].append(["zero", b, o["dtype"]])
+                        if b == "charge":
+                            charge_vals = [0] * npix
             if "pixel" not in owners and rng.random() < 0.3:
                 step_ops[mi].append(["add", "pixel", rng.randrange(1, 60)])
+            elif "pixel" not in owners and rng.random() < (0.4 if force.get("zeroing") else 0.12):
+                step_ops[mi].append(["zero", "pixel", "float64"])  # drains what earlier models / steps collected
             if rng.random() < 0.12:
                 step_ops[mi].append(["scene", rng.randrange(1, 50), rng.choice([wl, wl, [500.0, 700.0], [400.0, 500.0, 600.0, 800.0]])])
             if rng.random() < 0.15:
@@ -379,6 +392,25 @@ def changed_by(before, after):
     return {b: v for b, v in va.items() if b not in vb or vb[b]["vals"] != v["vals"] or vb[b]["shape"] != v["shape"]}
 
 
+def photon_by_label(v, held, i, npix):
+    """the planes of readout i of a multi-wavelength result variable, looked up BY LABEL at the wavelengths the detector
+    held in that step -> (flattened values or None, problem text or None).  Labels the step did not hold must be NaN."""
+    sl = v["slices"][i]
+    labels = v["wl"]
+    if sl is None or len(sl) != len(labels) * npix:
+        return None, f"slice of readout {i} has {None if sl is None else len(sl)} values for {len(labels)} wavelength labels"
+    out = []
+    for w in held["wl"]:
+        if w not in labels:
+            return None, f"readout {i}: the detector held photons at {w} nm, the result has no such wavelength label (labels {labels})"
+        j = labels.index(w)
+        out.extend(sl[j * npix:(j + 1) * npix])
+    for j, w in enumerate(labels):
+        if w not in held["wl"] and any(x is not None for x in sl[j * npix:(j + 1) * npix]):
+            return None, f"readout {i}: the result reports photons at {w} nm where the detector held none (its grid was {held['wl']})"
+    return out, None
+
+
 def check_record(case, run, tag):
     """the record clauses of the statement on one run"""
     res, snaps = run["result"], run["snaps"]
@@ -401,10 +433,17 @@ def check_record(case, run, tag):
             return ("C03:indices", f"{tag}: bucket {b} has dimensions {v['dims']}, expected {want_dims}")
         if res["y"] != list(range(case["rows"])) or res["x"] != list(range(case["cols"])):
             return ("C03:indices", f"{tag}: row/column indices {res['y']} / {res['x']}")
-        if three_d and v["wl"] != exp[0]["wl"]:
-            return ("C03:indices", f"{tag}: wavelengths {v['wl']} vs {exp[0]['wl']}")
+        if three_d and v["wl"] != sorted({w for e in exp for w in e["wl"]}):
+            return ("C03:wavelength-labels", f"{tag}: wavelength labels {v['wl']}, the detector held the grids {[e['wl'] for e in exp]}")
         for i in range(n):
-            if v["slices"][i] != exp[i]["vals"]:
+            if three_d:
+                got_i, problem = photon_by_label(v, exp[i], i, case["rows"] * case["cols"])
+                if problem:
+                    return ("C03:wavelength-labels", f"{tag}: {problem}")
+            else:
+                got_i = v["slices"][i]
+            if got_i != exp[i]["vals"]:
+                v = dict(v, slices={**dict(enumerate(v["slices"])), i: got_i})
                 k = next((j for j, (a, c) in enumerate(zip(v["slices"][i] or [], exp[i]["vals"])) if a != c), 0)
                 big = b == "image" and any(x > 2**53 for x in exp[i]["vals"])
                 return ("C03:image-values-above-2^53" if big else "C03:slice-values",
@@ -427,6 +466,11 @@ def property_predicate(case, impl):
                 return ("C03:flat-layout-fails-with-scene",
                         f"{tag}: the models produced a scene and a multi-wavelength photon bucket on different wavelength grids; the "
                         f"flat layout raises {impl[tag]['error']} instead of returning the result: {impl[tag]['msg'][:120]}")
+            if flat_like and "/intermediate/" in impl[tag]["msg"] and "not aligned with its parents" in impl[tag]["msg"]:
+                return ("C03:flat-layout-fails-with-debug-record-on-other-grid",
+                        f"{tag}: a debug record holds a multi-wavelength photon on a wavelength grid that differs from the buckets' "
+                        f"(the grid changes from readout to readout); the flat layout raises {impl[tag]['error']} instead of returning "
+                        f"the result: {impl[tag]['msg'][:100]}")
             return ("C03:run-failed", f"{tag}: exposure of writer probes failed: {impl[tag]['error']} {impl[tag]['msg']}")
     for tag in ("flat", "tree", "debug"):
         why = check_record(case, impl[tag], tag)
@@ -492,6 +536,8 @@ def lean_request(case):
                     lops.append(["set", "photon", "float64", op[3]])
                 elif op[0] in ("add", "same", "collect"):
                     lops.append(op)
+                elif op[0] == "zero":
+                    lops.append(["scale", op[1], 0])
                 elif op[0] == "clusters":
                     lops.append(["addat", "charge", adds_of(op[2], case["rows"], case["cols"])])
                 elif op[0] == "cl_scale":
@@ -508,7 +554,24 @@ def lean_request(case):
         assert [order[m["group"]] for m in ms] == sorted(order[m["group"]] for m in ms)
     return {"op": "run", "npix": case["rows"] * case["cols"], "nd": case["nd"],
             "abs": [common.frac(case["start"] + t) for t in case["times"]],
-            "prior": {b: None for b in BUCKETS}, "steps": steps, "scene_empty": not scene_in_last_step(case)}
+            "prior": {b: None for b in BUCKETS}, "steps": steps, "scene_empty": not scene_in_last_step(case),
+            "debug_tree": bool(case["debug_layout_tree"]), "clash_debug": grids_change(case)}
+
+
+def grids_change(case):
+    """does a multi-wavelength photon bucket change its wavelength grid between readouts?  (then a debug record lives on
+    another grid than the buckets of the result, whose wavelength axis is the union)"""
+    grids = {tuple(op[2]) for so in case["plan"] for ops in so for op in ops if op[0] == "set3d"}
+    return len(grids) > 1
+
+
+def case_first_grid(case):
+    for so in case["plan"]:
+        for ops in so:
+            for op in ops:
+                if op[0] == "set3d":
+                    return op[2]
+    return None
 
 
 def compare_with_model(ck, case, impl, ans):
@@ -516,7 +579,7 @@ def compare_with_model(ck, case, impl, ans):
         ck.disagreement("run-failed", case, {t: impl[t].get("error") for t in impl}, "ok")
         return
     flat, dbg = impl["flat"], impl["debug"]
-    layouts = [impl["flat"]["result"]["layout"], impl["tree"]["result"]["layout"]]
+    layouts = [impl["flat"]["result"]["layout"], impl["tree"]["result"]["layout"], impl["debug"]["result"]["layout"]]
     if layouts != ans["layout"]:
         ck.disagreement("layout", case, layouts, ans["layout"])
     mine = [lean_snap(s["buckets"]) for s in flat["snaps"]]
@@ -526,6 +589,11 @@ def compare_with_model(ck, case, impl, ans):
     rec = ans["record"]
     got = {"times": flat["result"]["times"],
            "vars": {b: (None if v is None else {"dt": v["dt"], "slices": v["slices"]}) for b, v in flat["result"]["vars"].items()}}
+    ph = flat["result"]["vars"]["photon"]
+    if ph is not None and ph.get("wl") and all(s["buckets"]["photon"] is not None for s in flat["snaps"]):
+        # multi-wavelength photons: the model has no wavelength axis; readout i is compared at the labels held in step i
+        got["vars"]["photon"]["slices"] = [
+            photon_by_label(ph, s["buckets"]["photon"], i, case["rows"] * case["cols"])[0] for i, s in enumerate(flat["snaps"])]
     # buckets initialised in every step or in none are compared (dtype and slices); the model's record is only
     # claimed for these (partial presence is outside the statement and outside the comparison)
     uniform = [b for b in BUCKETS if len({s["buckets"][b] is None for s in flat["snaps"]}) == 1]
@@ -553,6 +621,10 @@ def body(ck: common.Check):
         cases.append(("scene-clash", gen_scene_clash(rng)))
     for _ in range(14 * k):
         cases.append(("charge-clusters", gen_case(rng, {"clusters": True, "nsteps": rng.choice([1, 2, 3])})))
+    for _ in range(10 * k):
+        cases.append(("wavelength-grids", gen_case(rng, {"photon3d": True, "wl_shift": True, "nsteps": rng.choice([2, 3, 4])})))
+    for _ in range(12 * k):
+        cases.append(("zeroing", gen_case(rng, {"zeroing": True, "nsteps": rng.choice([1, 2, 3])})))
     impls = pool_map(run_impl, [c for _, c in cases])
     answers = LeanDriver("C03").batch([lean_request(c) for _, c in cases])
     for (stream, case), impl, ans in zip(cases, impls, answers):
@@ -568,6 +640,9 @@ def body(ck: common.Check):
                 ck.count(f"dtype:{op[1]}={op[2]}")
             elif op[0] == "set3d":
                 ck.count("photon=3d")
+                ck.count("photon-3d-grid=" + ("first" if op[2] == case_first_grid(case) else "other"))
+            elif op[0] == "zero":
+                ck.count("zeroed=" + op[1])
             elif op[0] in ("clusters", "cl_scale", "cl_move", "cl_remove", "collect"):
                 ck.count("charge-op=" + op[0] + (":" + op[1] if op[0] == "clusters" else ""))
         ck.count("scene-written", int(any(op[0] == "scene" for op in ops)))
@@ -584,7 +659,7 @@ def body(ck: common.Check):
                "signal float16/32/64, image uint8/16/32/64 (uint64 also with values above 2^53), charge (as array or as clusters put in "
                "with add_charge / add_charge_dataframe, then rescaled or moved with set_frame_values, removed with remove_from_frame, "
                "mixed with array additions and collected into pixel by later models), pixel; constant or "
-               "step-dependent integer values; later models add in place or rewrite the same content; scene sources and processed "
+               "step-dependent integer values; later models add in place, rewrite the same content or set a non-zero bucket to exactly 0; scene sources and processed "
                "data written at random; three runs per case (flat, hierarchical, debug), a quarter of the debug runs on a detector "
                "that already served an earlier debug run; directed histories for the debug snapshot `last`")
     ck.assumptions = [
